@@ -436,12 +436,19 @@ def main():
     ap.add_argument("--out", default=os.path.join(root, "lean", "OfxModel", "Generated"))
     ap.add_argument("--json", default=os.path.join(root, ".work", "schema.json"))
     a = ap.parse_args()
+    extra = {}
+    try:
+        # must run before ofxtools is imported here (points XDG_CONFIG_HOME into .work/)
+        import translate_ofxget
+        extra = translate_ofxget.main_from(a.repo)
+    except ImportError:
+        pass
     schema_lean, tables_lean, twin = extract(a.repo)
     ch1 = write_if_changed(os.path.join(a.out, "Schema.lean"), schema_lean)
     ch2 = write_if_changed(os.path.join(a.out, "Tables.lean"), tables_lean)
     write_if_changed(a.json, json.dumps(twin, indent=1, sort_keys=True, ensure_ascii=True))
     print(json.dumps({"schema_changed": ch1, "tables_changed": ch2, "classes": len(twin["classes"]),
-                      "enums": len(twin["enums"]), "problems": twin["problems"]}))
+                      "enums": len(twin["enums"]), "problems": twin["problems"] + list(extra.get("ofxget_problems", []))}))
 
 
 if __name__ == "__main__":
